@@ -26,6 +26,25 @@ constants, definition names of 1..255 printable ASCII characters, variants):
              audio-rate Out / filter / SendTrig / Pan2, NaN constant, None /
              string / object input) must raise, or else emit bytes that pass
              every predicate above.
+
+Round 7b - every emitted definition includes the datagrams and the files
+(shards routes / routes-rt, vf/c02_routes.py): after the as_bytes() specimen of
+a program has passed the predicates above, a random history runs the other
+emission routes - SynthDef.send / load / store / add / _write_def_file /
+send_from_file / load_from_file, SynthDescLib.send, `@synthdef` and the
+ServerBoot action it registers, reconstructed definitions
+(_load_reconstructed), generate_tmp_name, _write_def_list with several
+definitions - and the file readers SynthDesc.read, SynthDescLib.read / at /
+match / remove_at, def_name_from_bytes, version-1 files, MdPlugin.write / read
+/ read_file / delete.  NRT traffic is the decoded score of main.process(), RT
+traffic the datagrams handed to the interface's replaced `_send`.  Every
+/d_recv blob and every file must be byte-identical to the judged specimen, a
+/d_load must name a file that holds exactly those bytes when it is issued, one
+definition command per addressed server with the completion message asked
+for, RT /d_recv datagrams fit a UDP datagram (definitions tuned to the byte
+around 65504), readers return what the independent parse of the file predicts
+(metadata: what the harness reads back as JSON), match/at/remove_at follow a
+dict model.
 """
 
 import io
@@ -57,7 +76,15 @@ RULE = ("seeded random programs as data (vf/gen_graph.py:gen_program_c02) of "
         "Non-trivial: a valid program whose definition has >= 8 units and "
         "at least one of: multi-output unit, expanded list, width-first unit, "
         "array control, variant; or an invalid program.  distinct = hash of "
-        "the program data")
+        "the program data.  routes / routes-rt: one such program (kinds plain / mc "
+        "/ wf / variants / wrap / bigarray, or ~64 KiB 'huge' ones whose /d_recv "
+        "message is tuned to 65496..65520 bytes) with a file-safe name of 1..246 "
+        "characters (or an identifier for @synthdef, a generate_tmp_name() name, "
+        "a 247..255 character name no file can carry), optional JSON/ControlSpec "
+        "metadata, and a history of 3-8 operations over the emission routes and "
+        "readers (directories: default / scratch, str / Path; servers: default, "
+        "second local, remote; completion: none / list / function; stale files "
+        "planted).  Non-trivial there: >= 4 units and >= 2 operations with traffic")
 ASSUMPTIONS = [
     "independent strict SCgf-2 parser vf/scgf.py (from the synth definition "
     "file format document)",
@@ -68,6 +95,29 @@ ASSUMPTIONS = [
     "width-first ordering check",
     "exceptions raised by the SynthDef constructor for *valid* programs are "
     "C01's subject and only counted here",
+    "routes: vf/osc.py decodes the captured packets; an absent completion "
+    "message may be omitted or sent as int 0 / nil; a definition too big for a "
+    "datagram may reach a local server as /d_load of a file with exactly its "
+    "bytes and may not reach a remote server at all; file names are restricted "
+    "to what the file system can carry (no '/', <= 246 characters; longer names "
+    "must be refused with OSError by the file routes); patterns given to the "
+    "readers are glob-escaped; directories with hidden files are not read by "
+    "pattern; which servers `None` stands for in SynthDescLib.send is not judged",
+    "routes: a version-1 file may be rejected (NotImplementedError today) or "
+    "read correctly, never read as something else; multi-definition files put "
+    "a definition with variant blocks in front of another one only as a probe "
+    "whose first default is negative (a reader that does not step over the "
+    "blocks fails at once instead of allocating the count it mis-reads)",
+    "routes: metadata is outside the statement proper; judged only as "
+    "consistency of the stored pair (JSON file next to the definition equals "
+    "what the definition carries, no stale file of an earlier definition is "
+    "left, MdPlugin.read/read_file/the file reader return it, the definition "
+    "file is untouched by metadata operations)",
+    "routes: a reconstructed definition is one the reader kept "
+    "(keep_defs=True); where the reader fails to deliver one (reported) the "
+    "harness marks a fresh definition with the documented metadata "
+    "{'reconstructed': True, 'load_path': file} so that _load_reconstructed "
+    "is still observed",
 ]
 MIN_COUNTERS = {
     'quick': {'definitions_parsed': 1500, 'units_checked': 30000,
@@ -81,7 +131,26 @@ MIN_COUNTERS = {
               'unwritable_retries_checked': 500,
               'unwritable_corrections_checked': 60,
               'definitions_parsed_bigarray': 100,
-              'side_effect_units_counted': 10000},
+              'side_effect_units_counted': 10000,
+              # routes (vf/c02_routes.py), per entry point
+              'definitions_parsed_routes': 250,
+              'route_send': 80, 'route_load': 60, 'route_store': 60,
+              'route_add': 100, 'route_write_def_file': 60,
+              'route_send_from_file': 50, 'route_load_from_file': 50,
+              'route_load_reconstructed': 40, 'route_lib-send': 10,
+              'route_decorator': 15, 'route_decorator_boot_actions': 15,
+              'tmp_names_checked': 8, 'route_write_def_list': 20,
+              'route_datagrams_judged': 400, 'route_files_judged': 400,
+              'route_too_big_fallbacks': 8,
+              'route_datagrams_within_500_of_the_bound': 2,
+              'reader_read_file': 150, 'reader_lib_read': 40,
+              'reader_file_roundtrips': 100,
+              'reader_def_name_from_bytes': 800, 'reader_v1_files': 40,
+              'multi_definition_files': 40,
+              'multi_definition_files_with_variants_inside': 10,
+              'md_write': 30, 'md_read': 25, 'md_read_file': 25,
+              'md_delete': 25, 'md_files_judged': 150,
+              'lib_match': 100, 'lib_remove_at': 60},
     'thorough': {'definitions_parsed': 50000, 'units_checked': 1000000,
                  'reader_roundtrips': 100000,
                  'width_first_pairs_checked': 100000, 'invalid_rejected': 10000,
@@ -94,13 +163,33 @@ MIN_COUNTERS = {
                  'unwritable_retries_checked': 20000,
                  'unwritable_corrections_checked': 3000,
                  'definitions_parsed_bigarray': 3000,
-                 'side_effect_units_counted': 300000},
+                 'side_effect_units_counted': 300000,
+                 'definitions_parsed_routes': 5000,
+                 'route_send': 1600, 'route_load': 1200, 'route_store': 1200,
+                 'route_add': 2000, 'route_write_def_file': 1200,
+                 'route_send_from_file': 1000, 'route_load_from_file': 1000,
+                 'route_load_reconstructed': 800, 'route_lib-send': 200,
+                 'route_decorator': 300, 'route_decorator_boot_actions': 300,
+                 'tmp_names_checked': 150, 'route_write_def_list': 400,
+                 'route_datagrams_judged': 8000, 'route_files_judged': 8000,
+                 'route_too_big_fallbacks': 150,
+                 'route_datagrams_within_500_of_the_bound': 40,
+                 'reader_read_file': 3000, 'reader_lib_read': 800,
+                 'reader_file_roundtrips': 2000,
+                 'reader_def_name_from_bytes': 16000, 'reader_v1_files': 800,
+                 'multi_definition_files': 800,
+                 'multi_definition_files_with_variants_inside': 200,
+                 'md_write': 600, 'md_read': 500, 'md_read_file': 500,
+                 'md_delete': 500, 'md_files_judged': 3000,
+                 'lib_match': 2000, 'lib_remove_at': 1200},
 }
 
 KINDS = {'plain': 7000, 'mc': 7000, 'wf': 7000, 'variants': 4500, 'big': 720,
          'invalid': 4500, 'invalid-ctor': 9000, 'wrap': 5000,
-         'unwritable': 4000, 'bigarray': 600}
+         'unwritable': 4000, 'bigarray': 600,
+         'routes': 6000, 'routes-rt': 3000}
 # quick tier sizes (cases); also capped in seconds
+RT_KINDS = ('routes-rt',)
 
 
 def plan(tier, seed):
@@ -109,15 +198,19 @@ def plan(tier, seed):
     shards = []
     for kind, n in KINDS.items():
         # at most 16 shards: one wave of workers
-        parts = {'big': 2, 'variants': 1, 'invalid': 1, 'wrap': 1,
-                 'unwritable': 1, 'bigarray': 1}.get(kind, 2) \
+        parts = {'big': 1, 'variants': 1, 'invalid': 1, 'wrap': 1,
+                 'unwritable': 1, 'bigarray': 1, 'plain': 1,
+                 'routes-rt': 1}.get(kind, 2) \
             if tier == 'quick' else \
-            {'big': 4, 'invalid': 1, 'variants': 1, 'wrap': 1,
-             'unwritable': 1, 'bigarray': 1, 'wf': 1}.get(kind, 2)
+            {'big': 2, 'invalid': 1, 'variants': 1, 'wrap': 2,
+             'unwritable': 1, 'bigarray': 1, 'wf': 1, 'plain': 1, 'mc': 1,
+             'routes-rt': 1}.get(kind, 2)
         if tier == 'thorough' and kind == 'big':
             n = 600                       # x13 = 7800 big programs
         for p, (f, c) in enumerate(split(n * mult, parts)):
-            shards.append({'name': f'{kind}{p}', 'mode': 'nrt', 'kind': kind,
+            shards.append({'name': f'{kind}{p}',
+                           'mode': 'rt' if kind in RT_KINDS else 'nrt',
+                           'kind': kind,
                            'first_case': f, 'n': c, 'secs': secs,
                            'hard_timeout': secs + 150})
     return shards
@@ -746,6 +839,9 @@ def run_shard(spec, acc):
         return
     if kind0 == 'unwritable':
         return run_unwritable(spec, acc, gg, scgf, SynthDesc)
+    if kind0 in ('routes', 'routes-rt'):
+        from vf import c02_routes
+        return c02_routes.run(spec, acc, 'rt' if kind0 == 'routes-rt' else 'nrt')
     for i in iter_cases(spec):
         rng = case_rng(spec['seed'], 'C02', kind0, i)
         kind = kind0
